@@ -144,6 +144,12 @@ pub fn gen_value(r: &mut Rng, depth: u32) -> BValue {
         0 => BValue::Int(match r.below(5) {
             0 => *r.pick(&[0i64, 1, -1, 9, 10, -10, i64::MAX, i64::MIN, i64::MAX - 1, i64::MIN + 1, 2147483648, -2147483649]),
             1 => r.below(1000) as i64 - 500,
+            2 => {
+                // around every power of ten (where the number of digits changes), either sign
+                let k = 1 + r.below(18) as u32;
+                let v = 10i64.pow(k) + r.below(5) as i64 - 3;
+                if r.coin() { v } else { -v }
+            }
             _ => r.next() as i64,
         }),
         1 => BValue::ByteStr(match r.below(4) {
